@@ -191,6 +191,10 @@ def check(run):
     loops = [n for n in ws.all_nodes() if n['k'] == 'rangefor' and q.render(ws, n.get('range')) == 'bufs']
     run.check(len(loops) == 1, 'R4', 'gather-in-order', ws.norm, ws.loc(), 'the gather buffers are not visited by one forward range-for', 'single forward pass over bufs')
 
+    run.clause('whatever the buffer sizes: the size of a user buffer is not converted to int before it has been bounded (shared with C08)')
+    nus = engines.user_sizes_not_narrowed(run, [f_ for f_ in fx.repo_functions() if q.top_function(fx, f_).cls in (T, 'sim::asio::ip::udp::socket')])
+    if nus < 3:
+        run.broke('fewer than 3 conversions of user buffer sizes to int found in the sockets (%d; tcp write/read, udp receive confirmed by hand)' % nus)
     run.clause('EOF-last: a queued error marker is surfaced only on paths where no payload byte has been gathered')
     n_eof = 0
     for name in ('available', 'read_some_impl'):
